@@ -108,7 +108,7 @@ def handle : List Sexp → String
     match nat? len, parseExpr tree, ns.mapM Sexp.str? with
     | some len, some e, some ns =>
       let names := ns.toArray
-      let outs := (List.range (len + 3)).map (fun pos => renderOut names (complete pos 100000 e))
+      let outs := (List.range (len + 3)).map (fun pos => renderOut names (findAt pos e))
       "(" ++ " ".intercalate outs ++ ")"
     | _, _, _ => "bad-request"
   | _ => "bad-request"
